@@ -128,3 +128,7 @@ func zzFallocate(fd int, mode uint32, off int64, length int64) error {
 func zzCleanupFiles() {}
 
 var _ types.DiffDisk = (*zzFile)(nil)
+
+// coalesce helpers (A-sfold): unit x / block b of dst takes src's when src holds it
+func zzFoldUnit(dst, src *zzFile, x int, p bool) { dst.data[x] = zzIteByte(p, src.data[x], dst.data[x]) }
+func zzFoldPresent(dst *zzFile, b int, p bool)  { dst.present[b] = zzOr(dst.present[b], p) }
